@@ -541,7 +541,7 @@ def resolve(op, g):
         return (n, _res(op[1], H), op[2])
     if n == "set_column_values":
         return (n, _res(op[1], W), op[2])
-    if n == "extend_rows":
+    if n in ("extend_rows", "clear"):
         return op
     if n in ("rset_cell", "rinsert_cell"):
         y = _res(op[1], H)
@@ -636,6 +636,8 @@ def apply_real(t, op):
         t.set_column_values(op[1], [op[2] + i for i in range(t.height)])
     elif n == "extend_rows":
         t.extend_rows([_mk_row(op[1], op[2], op[3]), _mk_row("R1", op[2] + 5, 1)])
+    elif n == "clear":
+        t.clear()
     elif n == "live_row_repeated":
         t.get_row(op[1], clone=False).repeated = op[2]
     elif n[0] == "r":
@@ -699,6 +701,9 @@ def apply_model(g, op):
     elif n == "extend_rows":
         g.append_row(_flat(op[1], op[2]), op[3])
         g.append_row(_flat("R1", op[2] + 5), 1)
+    elif n == "clear":
+        g.rows[:] = []
+        g.cols[:] = []
     elif n[0] == "r":
         y = op[1]
         row = list(g.rows[y]) if y < g.H else []
@@ -721,7 +726,7 @@ def apply_model(g, op):
 
 OPS = ["set_value", "set_cell", "insert_cell", "append_cell", "delete_cell", "set_row", "insert_row", "append_row",
        "delete_row", "insert_column", "append_column", "delete_column", "set_column_cells", "set_values",
-       "set_cells", "set_row_values", "set_row_cells", "set_column_values", "extend_rows",
+       "set_cells", "set_row_values", "set_row_cells", "set_column_values", "extend_rows", "clear",
        "rset_cell", "rinsert_cell", "rappend_cell", "rdelete_cell", "rset_values", "live_row_repeated"]
 ROW_ADDRESSED = {"set_value", "set_cell", "insert_cell", "append_cell", "delete_cell",
                  "rset_cell", "rinsert_cell", "rappend_cell", "rdelete_cell", "rset_values", "live_row_repeated"}
@@ -784,6 +789,9 @@ def live_answers(t, light=False):
     if W >= 2 and H >= 2 and not light:
         a["get_values(area)"] = t.get_values((1, 1, W - 1, H - 1))
     a["column styles"] = [c.style for c in t.get_columns()]
+    # what the single-item getters hand out is a column / a row (a wrapper cache shared between kinds would
+    # answer with the other class, whose homonymous properties hide it)
+    a["classes"] = ([type(c).__name__ for c in t.get_columns()], [type(r).__name__ for r in t.get_rows()])
     return a
 
 
@@ -800,6 +808,7 @@ def model_answers(g, light=False):
     if W >= 2 and H >= 2 and not light:
         a["get_values(area)"] = [[g.value(x, y) for x in range(1, W)] for y in range(1, H)]
     a["column styles"] = list(g.cols)
+    a["classes"] = (["Column"] * W, ["Row"] * H)
     return a
 
 
@@ -1015,6 +1024,7 @@ def full_alphabet(coords=(0, 1, 2, LAST, E, BEY)):
     for rc in ROW_CONTENTS:
         for k in (1, 2):
             ops.append(("extend_rows", rc, v + 85, k))
+    ops.append(("clear",))
     return ops
 
 
@@ -1030,7 +1040,7 @@ REDUCED = [
     ("delete_column", 0), ("delete_column", LAST),
     ("set_column_cells", 1, 260), ("set_values", "2x2", 1, 1),
     ("set_cells", "2x2", 1, 0), ("set_row_values", 1, "R3"), ("set_row_cells", 0, "R3"), ("set_column_values", 0, 280),
-    ("extend_rows", "R3", 290, 2),
+    ("extend_rows", "R3", 290, 2), ("clear",),
     ("rset_cell", 1, 0, 270, 2), ("rinsert_cell", 1, 1, 271, 1), ("rappend_cell", 0, 272, 2),
     ("rdelete_cell", 1, 0), ("rset_values", 0, "R3", 1),
 ]
@@ -1120,7 +1130,7 @@ _H_REASON = ("history-level statement over run-length encoded XML: the per-funct
              "specs/vault*.py; this is the composition over call sequences, checked natively")
 _ALPHA_TXT = ("alphabet {set_value, set_cell, insert_cell, append_cell, delete_cell, set_row, insert_row, append_row, "
               "delete_row, insert_column, append_column, delete_column, set_column_cells, set_column_values, set_values(block), "
-              "set_cells(block), set_row_values, set_row_cells, extend_rows, and "
+              "set_cells(block), set_row_values, set_row_cells, extend_rows, clear, and "
               "Row.set_cell/insert_cell/append_cell/delete_cell/set_values on a get_row copy pushed back with set_row, "
               "live row.repeated=n}")
 
@@ -1151,7 +1161,7 @@ contract(
     ensures=_history_clauses(),
     gen=_gen_h2, call_native=_call_history,
     bounded=dict(
-        scope="all 1024 ordered pairs of a reduced alphabet of 32 operations on 5 initial tables (empty, Table(2,2), 3 "
+        scope="all 1089 ordered pairs of a reduced alphabet of 33 operations on 5 initial tables (empty, Table(2,2), 3 "
               "raw-XML run-length tables, one ragged), each once checked only at the end (no read in "
               "between) and once with cache-populating reads (get_row, get_cell, traverse, get_column) and all checks "
               "after every step; thorough: plus the pairs (with reads) on the 5 other initial tables and 8 random raw-XML "
